@@ -6,7 +6,7 @@
 (* tree contains no comment, environment or math node.                              *)
 EXTENDS Encoder, TreeProps, Json
 
-CONSTANTS Alphabet, K, Shard, Cfgs, MacroSig, EnvSig, SpecSig, HasUnknownMacro, HasUnknownEnv, St0
+CONSTANTS Alphabet, K, Shard, Cfgs, MacroSig, EnvSig, SpecSig, HasUnknownMacro, HasUnknownEnv, Sticky, St0
 
 P == INSTANCE Parser WITH VTok <- "intended", VMarker <- "intended", VVerb <- "intended", VPosNone <- "intended"
 
